@@ -101,6 +101,11 @@ def quantCode (code : List Instr) : QKind → List Instr
 
 def strToBool (t : Ty) : List Instr := if t == .str then [.un .OP_STR_TO_BOOL] else []
 
+/-- a member of a rule set (grammar.y rule_enumeration_item, parser.c yr_parser_emit_pushes_for_rules, since the repair of
+    finding F68): `OP_PUSH_RULE k; OP_PUSH_8 0; OP_OR` — a disabled rule pushes UNDEFINED, which would be taken for the
+    end-of-set marker; `undefined or false` is false -/
+def ruleMember (k : Nat) : List Instr := [.pushRule k, .push 0, .bin .OP_OR]
+
 /-- the loop template of grammar.y (`_FOR_ for_expression ... ':' '(' boolean_expression ')'`);
     `f` = var frame, `init` = iterator set-up, `body` = code of the boolean body -/
 def loopCode (q init body : List Instr) (f : Nat) : List Instr :=
@@ -156,8 +161,8 @@ def compile (c : Ctx) : Expr → List Instr
     quantCode (compile c qe) q ++ [.pushU] ++ set.map (fun n => .push (encStr n)) ++ compile c pos ++ [.ofFoundAt]
   | .pctStr p set => compile c p ++ [.pushU] ++ set.map (fun n => .push (encStr n)) ++ [.ofPercent false]
   | .ofRules q qe set =>
-    quantCode (compile c qe) q ++ [.pushU] ++ set.map (fun k => .pushRule k) ++ [.of_ true]
-  | .pctRules p set => compile c p ++ [.pushU] ++ set.map (fun k => .pushRule k) ++ [.ofPercent true]
+    quantCode (compile c qe) q ++ [.pushU] ++ set.flatMap ruleMember ++ [.of_ true]
+  | .pctRules p set => compile c p ++ [.pushU] ++ set.flatMap ruleMember ++ [.ofPercent true]
   | .forRange q qe lo hi body =>
     let f := 4 * c.vars.length
     let c' := { c with vars := c.vars ++ [.int] }
@@ -327,5 +332,14 @@ def modelRules (blocks : List (Nat × Bytes)) (filesize : Int) (ext : List (Stri
   | r :: rs, acc =>
     let v := modelVerdict { strs := r.strs, blocks, filesize, ext, rules := acc } r.cond
     v :: modelRules blocks filesize ext rs (acc ++ [v.getD false])
+
+/-- with rules switched off (OP_INIT_RULE skips a disabled rule: it does not match) -/
+def modelRulesD (blocks : List (Nat × Bytes)) (filesize : Int) (ext : List (String × Val)) (disabled : List Nat) :
+    List Rule → List Bool → List (Option Bool)
+  | [], _ => []
+  | r :: rs, acc =>
+    let v := if disabled.contains acc.length then some false
+             else modelVerdict { strs := r.strs, blocks, filesize, ext, rules := acc, disabled } r.cond
+    v :: modelRulesD blocks filesize ext disabled rs (acc ++ [v.getD false])
 
 end YaraModel.CondCompile
